@@ -69,7 +69,7 @@ def check_split(ctx, cases, mapname=None):
 
 def gen_split(ctx):
     if ctx.quick:
-        consts = dict(MaxLen=5, SampleLen=8, SampleN=1200)
+        consts = dict(MaxLen=5, SampleLen=8, SampleN=800)
     else:
         consts = dict(MaxLen=7, SampleLen=10, SampleN=20000)
     cfg = ctx.path("clisplit.cfg")
@@ -268,7 +268,7 @@ def check_print(ctx, runs, tag="print"):
 
 
 def gen_grids(ctx):
-    consts = dict(MaxRows=3, ExhCells=1, SampleN=14) if ctx.quick else dict(MaxRows=3, ExhCells=2, SampleN=150)
+    consts = dict(MaxRows=3, ExhCells=1, SampleN=10) if ctx.quick else dict(MaxRows=3, ExhCells=2, SampleN=150)
     cfg = ctx.path("delimgen.cfg")
     open(cfg, "w").write("CONSTANTS " + " ".join(f"{k} = {v}" for k, v in consts.items()) +
                          "\nSPECIFICATION Spec\nINVARIANTS RoundTrip Sensitive Emit\nCHECK_DEADLOCK FALSE\n")
